@@ -133,11 +133,11 @@ def opusSilkIn (apiFs mode bw frameRate maxDataBytes : Int) (allow can : Bool) :
   let minFs := if mode = MODE_HYBRID then 16000 else 8000
   let eff0 := frameRate * maxDataBytes * 8
   let eff := if frameRate > 50 then eff0 * 2 / 3 else eff0
-  let (maxFs, desired) :=
-    if mode = MODE_SILK_ONLY then
-      let (m1, d1) := if eff < 8000 then ((12000 : Int), min 12000 desired) else ((16000 : Int), desired)
-      if eff < 7000 then ((8000 : Int), min 8000 d1) else (m1, d1)
-    else ((16000 : Int), desired)
+  -- :2031-2045: at very low rates SILK-only is limited to 12 kHz (< 8 kb/s) or 8 kHz (< 7 kb/s), and asks for no more
+  let maxFs : Int := if mode = MODE_SILK_ONLY then (if eff < 7000 then 8000 else if eff < 8000 then 12000 else 16000) else 16000
+  let desired : Int :=
+    if mode = MODE_SILK_ONLY then (if eff < 7000 then min 8000 desired else if eff < 8000 then min 12000 desired else desired)
+    else desired
   { apiFs, desired, maxFs, minFs, allow, can }
 
 /-- The bandwidth a SILK-only packet signals for SILK's internal rate (opus_encoder.c:2118-2126). -/
